@@ -55,16 +55,26 @@ ExpectedPick(U, name, r) ==
 (* ---- the validity clauses ---- *)
 Eligible(d) == d.kind \notin {"dev", "peer"}
 DepsOfNode(U, n) == Elems(VerRec(U, n.name, n.v).deps)
-EdgeSatisfied(U, g, e) ==
-  LET to == g.nodes[e.t] from == g.nodes[e.f] IN
-  /\ \E d \in DepsOfNode(U, from) : d.name = to.name /\ d.r = e.r /\ d.alias = e.alias
-  /\ \E rec \in VersOfPkg(U, to.name) : rec.v = to.v /\ (SatRec(e.r, rec) \/ (e.r = StarReq /\ ~e.sel))
+\* the directory name under which tree node x is installed (its package name, or the alias), "" for the root
+DirNameOf(t, x) == IF x = 0 \/ t[x].parent = 0 THEN ""
+                   ELSE LET p == t[t[x].parent] ks == {k \in Elems(p.kids) \cup Elems(p.akids) : k.idx = x} IN IF ks = {} THEN "" ELSE (CHOOSE k \in ks : TRUE).name
+IsAliased(t, x) == x # 0 /\ t[x].parent # 0 /\ \E k \in Elems(t[t[x].parent].akids) : k.idx = x
+TreeIdx(t, gid) == IF \E x \in 1..Len(t) : t[x].gid = gid THEN CHOOSE x \in 1..Len(t) : t[x].gid = gid ELSE 0
+\* an edge is the resolution of a declaration of its source: same requirement and alias, and either the target is the
+\* declared package at a version the requirement accepts (range, dist-tag, or "*" reusing an installed copy), or - npm binds
+\* by directory name - the target sits in a directory of the declared name (its own alias, or the declaration's) and its
+\* version string satisfies the range
+EdgeSatisfied(U, g, t, e) ==
+  LET to == g.nodes[e.t] from == g.nodes[e.f] x == TreeIdx(t, e.t) IN
+  \E d \in DepsOfNode(U, from) : d.r = e.r /\ d.alias = e.alias /\
+     \/ (d.name = to.name /\ \E rec \in VersOfPkg(U, to.name) : rec.v = to.v /\ (SatRec(e.r, rec) \/ (e.r = StarReq /\ ~e.sel)))
+     \/ (x # 0 /\ (IsAliased(t, x) \/ d.alias # "") /\ DirNameOf(t, x) = (IF d.alias # "" THEN d.alias ELSE d.name) /\ NR[e.r].range /\ NSat[e.r][to.v])
 \* npm: a package listed in optionalDependencies as well overrides its entry in dependencies; a bundleDependencies entry
 \* adds nothing when the package is a regular dependency too
 Overridden(ds, d) == (d.kind # "opt" /\ \E x \in ds : x.name = d.name /\ x.kind = "opt") \/ (d.kind = "bundle" /\ \E x \in ds : x.name = d.name /\ x.kind = "reg")
-CompleteNode(U, g, i) ==
+CompleteNode(U, g, t, i) ==
   \A d \in {x \in DepsOfNode(U, g.nodes[i]) : Eligible(x) /\ ~Overridden(DepsOfNode(U, g.nodes[i]), x)} :
-     \/ \E e \in Elems(g.edges) : e.f = i /\ e.r = d.r /\ g.nodes[e.t].name = d.name
+     \/ \E e \in Elems(g.edges) : e.f = i /\ e.r = d.r /\ (g.nodes[e.t].name = d.name \/ (e.alias = d.alias /\ DirNameOf(t, TreeIdx(t, e.t)) = (IF d.alias # "" THEN d.alias ELSE d.name)))
      \/ \E er \in Elems(g.nodes[i].errs) : er.name = d.name /\ er.r = d.r
 RECURSIVE ReachFrom(_, _)
 ReachFrom(g, S) == LET T == S \cup {e.t : e \in {x \in Elems(g.edges) : x.f \in S}} IN IF T = S THEN S ELSE ReachFrom(g, T)
@@ -81,14 +91,14 @@ Lookup(t, x, name) ==         \* Node's resolution: look in x's node_modules, th
   ELSE Lookup(t, t[x].parent, name)
 TreeOf(t, gid) == IF \E x \in 1..Len(t) : t[x].gid = gid THEN CHOOSE x \in 1..Len(t) : t[x].gid = gid ELSE 0
 EdgeResolves(g, t, e) ==
-  LET name == IF e.alias # "" THEN e.alias ELSE g.nodes[e.t].name IN
+  LET name == IF e.alias # "" THEN e.alias ELSE IF IsAliased(t, TreeOf(t, e.t)) THEN DirNameOf(t, TreeOf(t, e.t)) ELSE g.nodes[e.t].name IN   \* the name the dependent asks Node for
   TreeOf(t, e.f) # 0 /\ Lookup(t, TreeOf(t, e.f), name) = TreeOf(t, e.t)
 GidsUnique(t) == \A x, y \in 1..Len(t) : (x # y /\ t[x].gid # 0) => t[x].gid # t[y].gid
 
 \* all clauses, as a set of violated clause names with a witness index
 NpmViolations(U, g, t) ==
-     {<<"edge-not-satisfied", i>> : i \in {i \in 1..Len(g.edges) : ~EdgeSatisfied(U, g, g.edges[i])}}
-  \cup {<<"requirement-neither-resolved-nor-reported", i>> : i \in {i \in 1..Len(g.nodes) : ~CompleteNode(U, g, i)}}
+     {<<"edge-not-satisfied", i>> : i \in {i \in 1..Len(g.edges) : ~EdgeSatisfied(U, g, t, g.edges[i])}}
+  \cup {<<"requirement-neither-resolved-nor-reported", i>> : i \in {i \in 1..Len(g.nodes) : ~CompleteNode(U, g, t, i)}}
   \cup (IF AllReachable(g) THEN {} ELSE {<<"unreachable-node", 0>>})
   \cup {<<"fresh-install-pick", i>> : i \in {i \in 1..Len(g.edges) : ~PickOK(U, g, g.edges[i])}}
   \cup {<<"two-packages-one-name-in-directory", x>> : x \in {x \in 1..Len(t) : ~OneNamePerDir(t[x])}}
